@@ -309,6 +309,7 @@ pub fn entry_family(acc: &mut Stats) {
 /// themselves) x one definite mismatch against a declared field / payload type, under every order of the top-level
 /// statements - rejected in all of them or in none
 fn type_order_family(acc: &mut Stats) {
+    type_order_group(acc, &GENERIC_DECLS, &GENERIC_USES);
     let decls = ["A :: blob { b: B }", "B :: blob { x: int, c: C }", "C :: blob { y: int }", "E :: enum\n    V B,\n    W,\nend", "L :: enum\n    Cons (int, L),\n    Nil,\nend"];
     let uses: [(&str, &str, bool); 12] = [
         ("blob field of a blob type", "a :: A { b: 1 }", false),
@@ -324,7 +325,30 @@ fn type_order_family(acc: &mut Stats) {
         ("wrong type three types deep", "a :: A { b: B { x: 1, c: C { y: \"s\" } } }", false),
         ("payload field through a variant parameter", "w :: fn q: E do\n        case q do\n            V p -> print(p.c.nope) end\n            else do end\n        end\n    end", false),
     ];
-    for (uname, u, valid) in uses {
+    type_order_group(acc, &decls, &uses);
+}
+
+/// generic declarations used at two instantiations, next to functions whose signatures are the only thing that
+/// mentions them: a signature creates no dependency edge, so only the types-first placement protects these
+const GENERIC_DECLS: [&str; 4] = [
+    "O :: enum(*T)\n    Some *T,\n    Non,\nend",
+    "G :: blob(*T) {\n    v: *T,\n}",
+    "oz :: fn m: O(int) -> int do\n    case m do\n        Some v -> v end\n        Non -> 0 end\n    end\nend",
+    "gv :: fn g: G(int) -> int\n    g.v + 1\nend",
+];
+const GENERIC_USES: [(&str, &str, bool); 8] = [
+    ("generic enum at a second instantiation in a global", "print(oz(O.Some 7))\n    print(oz(O.Non))\n    l :: O.Some \"seven\"\n    print(l)", true),
+    ("generic enum given the wrong instantiation", "print(oz(O.Some \"seven\"))", false),
+    ("generic blob at a second instantiation", "print(gv(G { v: 1 }))\n    h :: G { v: \"s\" }\n    print(h.v)", true),
+    ("generic blob given the wrong instantiation", "print(gv(G { v: \"s\" }))", false),
+    ("generic enum inside a generic blob", "h :: G { v: O.Some 1.5 }\n    print(h.v)\n    print(oz(O.Some 2))", true),
+    ("generic enum payload used at the wrong type", "print(oz(O.Some 1) + \"s\")", false),
+    ("unknown variant of the generic enum", "print(oz(O.Nope 1))", false),
+    ("absent field of the generic blob", "k :: G { v: 1 }\n    print(k.w)", false),
+];
+
+fn type_order_group(acc: &mut Stats, decls: &[&str], uses: &[(&str, &str, bool)]) {
+    for &(uname, u, valid) in uses {
         let start = format!("start :: fn do\n    {}\n    print(1)\nend", u);
         let mut items: Vec<String> = decls.iter().map(|d| d.to_string()).collect();
         items.push(start);
